@@ -218,7 +218,9 @@ def build(ctx):
                     modules=mods, functions=["Passive.compile", "_apply_one_mode_gate", "_apply_two_mode_gate", "_beam_splitter_passive"],
                     bounds={"source_ops": 1, "register": nreg, "modes_used": indices})
     # pairs (order of composition, mixed one- and two-mode operations), on the contiguous register only in quick
-    pair_src = {k: SRC[k] for k in ("Dgate", "Sgate", "Rgate", "BSgate", "S2gate")} if not ctx.thorough else SRC
+    # (pairs with MZgate / sMZgate: nested half-angle atoms give queries that run for minutes; they are covered as single
+    # operations, both dagger flags, on every index set above)
+    pair_src = {k: SRC[k] for k in ("Dgate", "Sgate", "Rgate", "BSgate", "S2gate")}
     pairs = seqs_for(pair_src, [0, 1], 2, with_dagger=ctx.thorough)
     if not ctx.thorough:
         pairs = [p for p in pairs if not (p[0][2] == [1] or p[1][2] == [0, 1])]
@@ -383,8 +385,13 @@ def build(ctx):
     _build_rest(ctx)
     ctx.add("lemma.polar", h_lemma_polar, {}, modules=[], functions=["np.abs / np.angle shims"], bounds={})
     n = 2
-    L = 3 if not ctx.thorough else 4
-    seqs = list(gm_sequences(n, L))
+    seqs = list(gm_sequences(n, 3))
+    if ctx.thorough:
+        # length 4 (16384 sequences in full) on a reduced family: one Kgate marker, Gaussian gates on mode 0 / (0, 1), no Dgate (its zero tests multiply the paths)
+        seqs += [s for s in gm_sequences(n, 4) if len(s) == 4 and all(x[0] != "Vgate" for x in s)
+                 and all(x[0] != "Dgate" for x in s) and sum(1 for x in s if x[0] == "Kgate") == 1
+                 and all(x[1] in ([0], [0, 1]) or x[0] == "Kgate" for x in s)
+                 and len(set(x[0] for x in s)) == 4]     # three different Gaussian families (two merging S or BS gates: 10+ min queries)
     if not ctx.thorough:
         # quick: Kgate only as the marker (Vgate is treated identically by the compiler: non-Gaussian by name)
         seqs = [s for s in seqs if all(x[0] != "Vgate" for x in s) and not any(x[0] == "BSgate" and x[1] == [1, 0] for x in s)]
